@@ -64,9 +64,14 @@ class FakeWriter:
 
     async def drain(self):
         if self.drain_gate is not None:
+            # a drain waiter blocked when the connection is closed CLEANLY is woken with a normal return
+            # (asyncio FlowControlMixin.connection_lost(None)); only an abortive close makes it raise
+            was_closed = self._closed
             await self.drain_gate.wait()
-        else:
-            await asyncio.sleep(0)
+            if was_closed or getattr(self, '_was_reset', False):
+                raise ConnectionResetError('drain on closed fake socket')
+            return
+        await asyncio.sleep(0)
         if self._closed:
             raise ConnectionResetError('drain on closed fake socket')
 
@@ -95,6 +100,7 @@ class FakeWriter:
         if self._closed:
             return
         self._closed = True
+        self._was_reset = True
         for r in (self.peer_reader, self.own_reader):
             try:
                 if r.exception() is None and not r.at_eof():
